@@ -482,52 +482,50 @@ def _decode_blob(lines_block: str):
     return raw, gzip.decompress(raw)
 
 
-def _obj_diff(x, y, path: str, out: typing.Set[str], seen: typing.Set[typing.Tuple[int, int]], depth: int = 0) -> None:
-    """Attribute names (no indices, no values) at which two unpickled object graphs differ."""
-    if depth > 60 or len(out) > 12:
+def _obj_diff(x, y, attr: str, owner: str, out: typing.Set[typing.Tuple[str, str, bool]], seen: dict, depth: int = 0) -> None:
+    """
+    Where two unpickled object graphs differ: {(attribute name, module of the object holding it, lazily-filled?)} -- no
+    indices, no values.  'lazily-filled' = one side is None and the other is not (a cache that was or was not computed).
+    """
+    if depth > 80 or len(out) > 16:
+        return
+    if x is None or y is None or isinstance(x, (str, bytes, int, float, bool, pathlib.PurePath)) or type(x) is not type(y):
+        if type(x) is not type(y) or x != y:
+            out.add((attr or "<value>", owner, (x is None) != (y is None)))
         return
     key = (id(x), id(y))
     if key in seen:
         return
-    seen.add(key)
-    if type(x) is not type(y):
-        out.add(path + "<type>")
-        return
-    if isinstance(x, (str, bytes, int, float, bool, type(None), pathlib.PurePath)):
-        if x != y:
-            out.add(path or "<value>")
-        return
+    seen[key] = (x, y)  # keeps both alive: ids of transient state dicts must not be reused during the walk
     if isinstance(x, (list, tuple)):
         if len(x) != len(y):
-            out.add(path + "<len>")
+            out.add((attr + "<len>", owner, False))
             return
         for a, b in zip(x, y):
-            _obj_diff(a, b, path, out, seen, depth + 1)
+            _obj_diff(a, b, attr, owner, out, seen, depth + 1)
         return
     if isinstance(x, dict):
         if list(map(repr, x.keys())) != list(map(repr, y.keys())):
-            out.add(path + ("<key-order>" if sorted(map(repr, x)) == sorted(map(repr, y)) else "<keys>"))
+            out.add((attr + ("<key-order>" if sorted(map(repr, x)) == sorted(map(repr, y)) else "<keys>"), owner, False))
             return
         for k in x:
-            _obj_diff(x[k], y[k], f"{path}.{k}" if isinstance(k, str) else path, out, seen, depth + 1)
+            _obj_diff(x[k], y[k], k if isinstance(k, str) else attr, owner, out, seen, depth + 1)
         return
     if isinstance(x, (set, frozenset)):
         if sorted(map(repr, x)) != sorted(map(repr, y)):
-            out.add(path + "<set>")
-        elif list(map(repr, x)) != list(map(repr, y)):
-            out.add(path + "<set-order>")
+            out.add((attr + "<set>", owner, False))
         return
     st_x = _state_of(x)
     st_y = _state_of(y)
     if st_x is None or st_y is None:
         try:
             if x != y:
-                out.add(path or "<value>")
+                out.add((attr or "<value>", owner, False))
         except Exception:
             if repr(x) != repr(y):
-                out.add(path or "<value>")
+                out.add((attr or "<value>", owner, False))
         return
-    _obj_diff(st_x, st_y, path, out, seen, depth + 1)
+    _obj_diff(st_x, st_y, attr, type(x).__module__, out, seen, depth + 1)
 
 
 def _state_of(o) -> typing.Optional[dict]:
@@ -566,13 +564,24 @@ def classify_blob(block_a: str, block_b: str) -> typing.List[typing.Tuple[str, s
             oa, ob = pickle.loads(pk_a), pickle.loads(pk_b)
         except Exception as ex:
             raise core.HarnessError(f"cannot unpickle a _MODEL_ blob (pydsdl importable?): {type(ex).__name__}: {ex}")
-        names: typing.Set[str] = set()
-        _obj_diff(oa, ob, "", names, set())
-        if names:
-            attrs = sorted({n.rsplit(".", 1)[-1] for n in names})
+        found: typing.Set[typing.Tuple[str, str, bool]] = set()
+        _obj_diff(oa, ob, "", type(oa).__module__, found, {})
+        lazy = sorted(f for f in found if f[2])
+        plain = sorted(f for f in found if not f[2])
+        if plain:
+            attrs = sorted({f[0] for f in plain})
             detail = _first_value_diff(oa, ob, attrs[0])
-            res.append((f"_MODEL_-blob:pickled-attribute({','.join(attrs)})", f"unpickled models differ at {sorted(names)[:6]}; {detail}"))
-        else:
+            res.append((f"_MODEL_-blob:pickled-attribute({','.join(attrs)})", f"unpickled models differ at attributes {attrs}; {detail}"))
+        if lazy:
+            owners = sorted({f[1] for f in lazy})
+            res.append(
+                (
+                    f"_MODEL_-blob:pickled-lazy-cache-state({','.join(owners)})",
+                    f"lazily computed attributes {sorted({f[0] for f in lazy})} of objects from {owners} are None in one pickle and "
+                    f"filled in the other ({len(pk_a)} vs {len(pk_b)} pickle bytes): the pickled model carries cache state",
+                )
+            )
+        if not found:
             res.append(("_MODEL_-blob:pickle-bytes-differ-objects-equal", f"pickle streams differ ({len(pk_a)} vs {len(pk_b)} bytes), object graphs equal"))
     elif raw_a[10:] != raw_b[10:] and not res:
         res.append(("_MODEL_-blob:deflate-stream", "identical pickle, different compressed stream"))
